@@ -19,7 +19,9 @@ BOUNDS = {
     "thorough": dict(active_set_n=[1, 2, 3, 4, 5], active_set_both_max=4, scaling_calls=3, scaling_n=[2, 3, 4], bounds_n=[2, 3, 4],
                      pnorm_p=[1, 2, 3, 4, -1, -2, -3], fractions="symbolic in [0,1]"),
 }
-OUTSIDE = ["vector lengths beyond the bound", "PNorm bounds for non-integer p", "IEEE rounding, overflow of exp()",
+OUTSIDE = ["vector lengths beyond the bound", "PNorm bounds for non-integer p",
+           "IEEE rounding, overflow of exp(): not visible to exact-real arithmetic; six `range-concrete-*` regression items run the "
+           "real modules on fixed wide-range data (evidence kind `concrete-regression`, not a solver verdict)",
            "AggScaling with approximations equal to zero (division by zero)"]
 ASSUMPTIONS = ["float64 arithmetic modelled as exact real arithmetic",
                "EXP/LOG/SQRT are uninterpreted functions with ground instances of: EXP(t)>0, EXP monotone, "
